@@ -290,3 +290,177 @@ Lemma float_boundary_refuted :
       /\ y_run (one_const true None (EBin BLt (EFloat (3 # 2)) (EInt 2))) = Printed [(TBool, OB false)]
       /\ g_run (one_const true None (EBin BLt (EFloat (3 # 2)) (EInt 2))) = Printed [(TBool, OB true)]).
 Proof. vm_compute. repeat split. Qed.
+
+(* ------------------------------------------------------------------ *)
+(** * Constants of the enlarged fragment meeting a typed numeric destination
+    (const c T = k, var v T = k, operands unified with a typed operand: typecheck.assignment ->
+    convertUntyped -> representableConst + convertConst) *)
+
+(** the Go value a typed constant of the specification is *)
+Definition mach (t : bt) (v : gval) : yval :=
+  match v with GI z => VM t (MI z) | GQ q => VM t (MF (FQ q)) | GS x => VM t (MS x) | GB b => VM t (MB b) end.
+
+(** side condition = outside the regions signed-bitlen (int8, int16, int32 destinations) and
+    float-negzero (a constant other than zero that rounds to zero) *)
+Definition dest_side (v : gval) (t : bt) : bool :=
+  if is_int t then negb (narrow_signed t)
+  else match g_repr v t with
+       | Some (GQ r) => negb (q_is_zero r) || q_is_zero (cq v)
+       | _ => true
+       end.
+
+Lemma bt_eqb_refl t : bt_eqb t t = true.
+Proof. apply Z.eqb_refl. Qed.
+
+Lemma conv_int_id z t : is_int t = true -> in_range t z = true -> convert_const (CInt z) t = Ok (VM t (MI z)).
+Proof.
+  intros Hi Hr. unfold convert_const.
+  assert (is_boolean t = false /\ is_string t = false) as (-> & ->) by (destruct t; try discriminate; auto).
+  assert (Hb : 0 < bits t <= 64) by (destruct t; cbn; lia).
+  assert (Hp : 2 ^ bits t <= 2 ^ 64) by (apply Z.pow_le_mono_r; lia).
+  assert (Hp1 : 2 ^ (bits t - 1) <= 2 ^ 63) by (apply Z.pow_le_mono_r; lia).
+  assert (H2 : 2 ^ bits t = 2 * 2 ^ (bits t - 1)).
+  { replace (bits t) with (bits t - 1 + 1) at 1 by lia. rewrite Z.pow_add_r by lia. change (2 ^ 1) with 2. lia. }
+  unfold in_range, imin, imax in Hr. apply andb_true_iff in Hr as [H0 H1]. apply Z.leb_le in H0, H1.
+  destruct (is_signed t) eqn:Hs.
+  - cbn [c_toint c_int64val bind].
+    assert (Hr64 : in_range TInt64 z = true).
+    { rewrite in_range_i64. rewrite pow2_63 in Hp1. apply andb_true_iff; split; apply Z.leb_le; lia. }
+    rewrite (int64_of_id z Hr64). unfold set_int, wrap_to. rewrite Hs.
+    rewrite wrap_s_id; [reflexivity|lia|lia].
+  - assert (Hu : is_unsigned t = true) by (destruct t; try discriminate; reflexivity).
+    rewrite Hu. cbn [c_toint c_uint64val bind].
+    rewrite pow2_64 in Hp.
+    assert (Hz : uint64_of z = z).
+    { unfold uint64_of, wrap_u. rewrite pow2_64. destruct (in_range TInt64 z).
+      - apply Z.mod_small; lia.
+      - rewrite Z.abs_eq by lia. apply Z.mod_small; lia. }
+    rewrite Hz. unfold set_int, wrap_to, wrap_u. rewrite Hs. rewrite Z.mod_small by lia. reflexivity.
+Qed.
+
+(** a floating-point constant and an integer type: accepted exactly when the value is an integer
+    (otherwise "truncated"), then treated as that integer *)
+Lemma repr_rat_int q t : is_int t = true ->
+  y_representable (CRat q) t = if q_is_int q then y_representable (CInt (q_num q)) t else Ok false.
+Proof. intros Hi. unfold y_representable. rewrite Hi. cbn [c_toint]. destruct (q_is_int q); reflexivity. Qed.
+
+Lemma conv_rat_int q t : is_int t = true -> q_is_int q = true -> convert_const (CRat q) t = convert_const (CInt (q_num q)) t.
+Proof. intros Hi Hq. unfold convert_const. cbn [c_toint]. rewrite Hq. destruct t; try discriminate; reflexivity. Qed.
+
+Lemma float_dest c t : is_float t = true -> (exists z, c = CInt z) \/ (exists q, c = CRat q) ->
+  let q := match c with CInt z => qz z | CRat q => q | _ => qz 0 end in
+  y_representable c t = Ok (match round_t t q with Some _ => true | None => false end)
+  /\ convert_const c t = (r <- fl_round t q false ;; Ok (VM t (MF r))).
+Proof.
+  intros Ht Hc.
+  assert (is_int t = false /\ is_boolean t = false /\ is_string t = false /\ is_signed t = false /\ is_unsigned t = false)
+    as (Hi & Hb & Hs & Hsg & Hu) by (destruct t; try discriminate; auto).
+  unfold y_representable, convert_const. rewrite Hi, Ht, Hb, Hs, Hsg, Hu.
+  destruct Hc as [[z ->]|[q ->]]; cbn [c_tofloat c_floatval]; split; reflexivity.
+Qed.
+
+Lemma assign_agree k v t dr :
+  numk k = true -> wf_untyped k v -> is_number t = true -> dest_side v t = true ->
+  y_assignment {| dty := Some (y_typ_of k); dva := Some (y_val_of v); dres := dr |} (typed t)
+  = match g_assign (GU k, v) t with
+    | Some (_, v') => Ok {| dty := Some (typed t); dva := Some (mach t v'); dres := dr |}
+    | None => Err
+    end.
+Proof.
+  intros Hk Hwf Ht Hside.
+  assert (Hyu : yu (y_typ_of k) = true) by (destruct k; reflexivity).
+  assert (Hfam : family_ok k t = true) by (destruct k; try discriminate; exact Ht).
+  unfold y_assignment. cbn [dty]. rewrite Hyu. unfold convert_untyped. cbn [dty dva dres]. rewrite Hyu.
+  cbn [negb yu typed yb]. unfold g_assign. rewrite Hfam.
+  assert (Hasg : assignable (typed t) (typed t) = true).
+  { unfold assignable, ytyp_eqb. cbn [yb yu typed]. rewrite bt_eqb_refl. reflexivity. }
+  unfold dest_side in Hside.
+  destruct (is_int t) eqn:Hi.
+  - (* integer destination *)
+    apply negb_true_iff in Hside.
+    assert (Hcase : (exists z, v = GI z) \/ (exists q, v = GQ q)).
+    { destruct k, v; try discriminate; try contradiction; eauto. }
+    destruct Hcase as [[z ->]|[q ->]]; cbn [y_val_of].
+    + rewrite (repr_int_agree z t Hi Hside). unfold g_repr. rewrite Hi.
+      destruct (in_range t z) eqn:Hr; cbn [bind option_map]; [|reflexivity].
+      rewrite (conv_int_id z t Hi Hr). cbn [bind dty]. rewrite Hasg. reflexivity.
+    + rewrite (repr_rat_int q t Hi). unfold g_repr. rewrite Hi.
+      destruct (q_is_int q) eqn:Hq; cbn [andb bind option_map]; [|reflexivity].
+      rewrite (repr_int_agree (q_num q) t Hi Hside). unfold g_repr. rewrite Hi.
+      destruct (in_range t (q_num q)) eqn:Hr; cbn [bind option_map]; [|reflexivity].
+      rewrite (conv_rat_int q t Hi Hq), (conv_int_id (q_num q) t Hi Hr). cbn [bind dty]. rewrite Hasg. reflexivity.
+  - (* floating-point destination: one rounding of the exact value *)
+    assert (Hf : is_float t = true) by (unfold is_number in Ht; rewrite Hi in Ht; exact Ht).
+    assert (Hc : (exists z, y_val_of v = VC (CInt z) /\ v = GI z) \/ (exists q, y_val_of v = VC (CRat q) /\ v = GQ q)).
+    { destruct k, v; try discriminate; try contradiction; cbn; eauto. }
+    assert (Hg : g_repr v t = option_map GQ (round_t t (cq v))).
+    { unfold g_repr. rewrite Hi, Hf. destruct Hc as [[z [_ ->]]|[q [_ ->]]]; reflexivity. }
+    rewrite Hg in Hside |- *.
+    assert (HY : exists c, y_val_of v = VC c /\ y_representable c t = Ok (match round_t t (cq v) with Some _ => true | None => false end)
+                 /\ convert_const c t = (r <- fl_round t (cq v) false ;; Ok (VM t (MF r)))).
+    { destruct Hc as [[z [E ->]]|[q [E ->]]]; eexists; (split; [exact E|]).
+      - apply (float_dest (CInt z) t Hf). left; eauto.
+      - apply (float_dest (CRat q) t Hf). right; eauto. }
+    destruct HY as (c & -> & -> & Hcv). cbn [bind].
+    destruct (round_t t (cq v)) as [r|] eqn:Hr; cbn [option_map bind]; [|reflexivity].
+    rewrite Hcv. unfold fl_round. cbn [option_map] in Hside.
+    destruct (q_is_zero (cq v)) eqn:Hz.
+    + rewrite (round_zero t _ Hz) in Hr. injection Hr as <-. cbn [bind dty]. rewrite Hasg. reflexivity.
+    + rewrite Hr. cbn [of_opt bind]. rewrite orb_false_r in Hside. apply negb_true_iff in Hside. rewrite Hside.
+      cbn [bind dty]. rewrite Hasg. reflexivity.
+Qed.
+
+(** one visit of the tree, then the assignment of its root to a destination of type t *)
+Definition y_eval_assign (iota : Z) (e : expr) (t : bt) : res (ytyp * option yval) :=
+  let '(x, st) := y_pass {| cx_iota := iota; cx_env := []; cx_const := false |} PKeep (init e) in
+  _ <- st ;; d <- y_assignment (deco_of x) (typed t) ;;
+  match dty d with Some t' => Ok (t', dva d) | None => Pan end.
+
+Definition g_eval_assign (iota : Z) (e : expr) (t : bt) : res (ytyp * option yval) :=
+  match g_eval [] iota e with
+  | Some c => match g_assign c t with Some (_, v') => Ok (typed t, Some (mach t v')) | None => Err end
+  | None => Err
+  end.
+
+Definition dest_ok (iota : Z) (e : expr) (t : bt) : bool :=
+  match g_eval [] iota e with Some (_, v) => dest_side v t | None => true end.
+
+Lemma typed_dest_agree e k iota t :
+  frf e = Some k -> numk k = true -> is_number t = true -> dest_ok iota e t = true ->
+  y_eval_assign iota e t = g_eval_assign iota e t.
+Proof.
+  intros Hk Hn Ht Hs. unfold y_eval_assign, g_eval_assign, dest_ok in *.
+  pose proof (fresh_pass_f e k Hk {| cx_iota := iota; cx_env := []; cx_const := false |} PKeep I) as H.
+  cbn [cx_iota] in H.
+  destruct (g_eval [] iota e) as [[gk v]|].
+  - destruct H as (-> & Hwf & x & Hx & Hty & Hva). rewrite Hx. cbn [bind].
+    destruct (deco_of x) as [ty va r]. cbn [dty dva] in Hty, Hva. subst ty va.
+    rewrite (assign_agree k v t r Hn Hwf Ht Hs).
+    destruct (g_assign (GU k, v) t) as [[gk' v']|]; reflexivity.
+  - destruct H as (x & Hx). rewrite Hx. reflexivity.
+Qed.
+
+(** 2.5 * 4 fits uint8 (10); 1.5 + 3/2 does not fit an integer type (truncated); 1e3 overflows uint8;
+    1 + 0x1p-24 + 0x1p-60 is rounded once to float32; 1e39 overflows float32 *)
+Example typed_dest_inhabited :
+  (dest_ok 0 (EBin BMul (EFloat (5 # 2)) (EInt 4)) TUint8 = true
+   /\ g_eval_assign 0 (EBin BMul (EFloat (5 # 2)) (EInt 4)) TUint8 = Ok (typed TUint8, Some (VM TUint8 (MI 10))))
+  /\ g_eval_assign 0 (EBin BAdd (EFloat (3 # 2)) (EBin BQuo (EInt 3) (EInt 2))) TInt64 = Err
+  /\ g_eval_assign 0 (EFloat (1000 # 1)) TUint8 = Err
+  /\ (dest_ok 0 (EBin BAdd (EFloat (16777217 # 16777216)) (EFloat (1 # 1152921504606846976))) TFloat32 = true
+      /\ g_eval_assign 0 (EBin BAdd (EFloat (16777217 # 16777216)) (EFloat (1 # 1152921504606846976))) TFloat32
+         = Ok (typed TFloat32, Some (VM TFloat32 (MF (FQ (8388609 # 8388608))))))
+  /\ g_eval_assign 0 (EBin BMul (EFloat (1000000000000000000000 # 1)) (EFloat (1000000000000000000 # 1))) TFloat32 = Err.
+Proof. vm_compute. repeat split. Qed.
+
+(** the side conditions are needed: 200.0 to int8 is accepted as -56 (signed-bitlen); a negative
+    constant that underflows float64 becomes -0 (float-negzero) *)
+Lemma typed_dest_refuted :
+  (frf (EFloat (200 # 1)) = Some UFloat /\ dest_ok 0 (EFloat (200 # 1)) TInt8 = false
+   /\ y_eval_assign 0 (EFloat (200 # 1)) TInt8 = Ok (typed TInt8, Some (VM TInt8 (MI (-56))))
+   /\ g_eval_assign 0 (EFloat (200 # 1)) TInt8 = Err)
+  /\ (frf (EUn UNeg (EFloat (1 # Pos.pow 2 1100))) = Some UFloat
+      /\ dest_ok 0 (EUn UNeg (EFloat (1 # Pos.pow 2 1100))) TFloat64 = false
+      /\ y_eval_assign 0 (EUn UNeg (EFloat (1 # Pos.pow 2 1100))) TFloat64 = Ok (typed TFloat64, Some (VM TFloat64 (MF FNZ)))
+      /\ g_eval_assign 0 (EUn UNeg (EFloat (1 # Pos.pow 2 1100))) TFloat64 = Ok (typed TFloat64, Some (VM TFloat64 (MF (FQ (0 # 1)))))).
+Proof. vm_compute. repeat split. Qed.
